@@ -74,13 +74,18 @@ def correspondence(pid, tier, seed):
 def search(pid, tier, seed, escalate, hints):
     rng = random.Random(seed * 31 + 7)
     budget = {('quick', False): 2000, ('quick', True): 20000, ('thorough', False): 20000, ('thorough', True): 100000}[(tier, escalate)]
+    pre = []
+    for h in hints or []:                      # the disagreeing cases of the correspondence first: is the implementation's outcome itself a violation?
+        o = h.get('impl')
+        if pid == 'C19' and o and o[0] == 'Q' and not O.S.valid_value(o[1], o[2]) and not (isinstance(o[2], float) and o[2] != o[2]):
+            pre.append(dict(cls='invalid-object', what=f'{h["case"]["op"]} on {h["case"]["a"]} and {h["case"]["b"]} returned a live {o[1]} with value {o[2]!r} {o[3]}', case=h['case']))
     if pid == 'C05':
         w, n = O.c05_search(rng, budget)
     elif pid == 'C06':
         w, n = O.c06_search(rng, budget)
     else:
         w, n = O.c19_search(rng, budget)
-    return w, n
+    return pre + w, n
 
 
 def replay_known(pid, k):
